@@ -39,6 +39,7 @@ RE_TABLE = re.compile(r'^<<"(TABLE|CLASSES)", "(.*)">>$')
 ALL_CHFORMS = {("bare", "bare"), ("inbound", "single"), ("inbound", "wrapper"), ("inbound", "wrapjoin"),
                ("outbound", "single"), ("outbound", "wrapper"), ("outbound", "wrapjoin"),
                ("internal", "single"), ("internal", "wrapper"), ("internal", "wrapjoin")}
+PATH_CHFORMS = {("bare", "bare"), ("outbound", "single"), ("internal", "wrapper"), ("internal", "wrapjoin")}
 
 
 # ---------------------------------------------------------------- model export
@@ -123,7 +124,7 @@ def plans(ctx, m):
         P.append(dict(name="channels", nv=2, w=4, consts=consts(m, Scope={"r.publish", "r.application", "ingress"}, K=1, MinR=0, MaxR=3,
                                                             ChForms=ALL_CHFORMS, ErrSet={"none", "dup_path"}, Bases={"auto"}, SpMode="default",
                                                             Orders={"shuffle"})))
-        P.append(dict(name="paths", nv=2, w=2, consts=consts(m, Scope={"r.auth_basic"}, K=1, MinR=1, MaxR=2, ChForms=ALL_CHFORMS,
+        P.append(dict(name="paths", nv=2, w=2, consts=consts(m, Scope={"r.auth_basic"}, K=1, MinR=1, MaxR=2, ChForms=PATH_CHFORMS,
                                                          PqSet=set(m.classes["pq"]), Bases={"auto"}, SpMode="default")))
         P.append(dict(name="layout", nv=2, w=3, consts=consts(m, Scope=tops, K=1, MinR=2, MaxR=2, ChForms={("bare", "bare"), ("outbound", "single")},
                                                           Bases={"auto"}, Orders=orders, Cms=cms, SpMode="default")))
@@ -131,7 +132,7 @@ def plans(ctx, m):
                                                            Bases={"auto"}, Orders={"shuffle", "reverse", "interleave"}, Cms={"all", "none"},
                                                            SpMode="default")))
         for k, (vc1, base) in enumerate(((allvc, {"auto"}), (noblank, {"auto"}), (noblank, {"none", "pull"}))):
-            P.append(dict(name="sim%d" % k, nv=2, w=1, sim=(200, 10 + 4 * k),
+            P.append(dict(name="sim%d" % k, nv=2, w=1, k=k, sim=(200, 10 + 4 * k),
                           consts=consts(m, VC1=vc1, VC2=allvc2 & vc1 | {"bare"}, MinR=1, MaxR=3, ChForms=ALL_CHFORMS, PqSet=set(m.classes["pq"]),
                                         Bases=base, Orders=orders, Cms=cms)))
     else:
@@ -144,26 +145,31 @@ def plans(ctx, m):
                                                             Bases={"pullv"}, SpMode="default")))
         P.append(dict(name="val-vars-d", nv=2, w=4, consts=consts(m, VC1={"vars", "bare"}, VC2={"vars", "bare"}, K=2, Scope=deliver | m.under("vars"),
                                                               Bases={"deliverv"})))
-        P.append(dict(name="val-ctx", nv=3, w=2, consts=consts(m, Scope=ctxfeat, VC1=allvc, VC2=allvc2, K=2, Bases={"none"})))
+        P.append(dict(name="val-ctx", nv=3, w=2, consts=consts(m, Scope=ctxfeat, VC1=allvc, VC2=allvc2, K=1, Bases={"none"})))
+        P.append(dict(name="val-ctx2", nv=2, w=4, consts=consts(m, Scope=ctxfeat, VC1={"bare", "quoted", "blank", "ph_env", "esc"}, VC2={"bare", "blank"},
+                                                            K=2, Bases={"none"})))
         P.append(dict(name="pairs-route", nv=2, w=10, consts=consts(m, Scope=ingress_side, VC1={"bare", "quoted", "blank", "kw", "ph_env"}, K=2)))
         P.append(dict(name="pairs-deliver", nv=2, w=6, consts=consts(m, Scope=m.under("r.deliver", "secrets", "defaults.deliver") | {"r.deliver_concurrency"},
                                                                  VC1={"bare", "quoted", "blank"}, K=2, Bases={"deliver"})))
         P.append(dict(name="pairs-top", nv=2, w=8, consts=consts(m, Scope=top, VC1={"bare", "blank"}, K=2, NMax=1)))
         P.append(dict(name="triples-route", nv=2, w=10, consts=consts(m, Scope=ingress_side, VC1={"bare"}, K=3, NMax=1)))
         P.append(dict(name="triples-auth", nv=2, w=8, consts=consts(m, Scope=auth, VC1={"bare", "blank"}, K=3)))
-        P.append(dict(name="channels", nv=2, w=8, consts=consts(m, Scope={"r.publish", "r.application", "r.auth_basic", "ingress"}, K=1, MinR=0, MaxR=3,
-                                                            ChForms=ALL_CHFORMS, PqSet={"bare", "quoted"}, ErrSet={"none", "dup_path"},
-                                                            Bases={"auto"}, SpMode="default", Orders={"shuffle", "canon"})))
-        P.append(dict(name="paths", nv=2, w=4, consts=consts(m, Scope={"r.auth_basic", "r.publish"}, K=2, MinR=1, MaxR=2, ChForms=ALL_CHFORMS,
+        P.append(dict(name="channels", nv=2, w=8, consts=consts(m, Scope={"r.publish", "r.auth_basic", "ingress"}, K=1, MinR=0, MaxR=3,
+                                                            ChForms=ALL_CHFORMS, ErrSet={"none", "dup_path"},
+                                                            Bases={"auto"}, SpMode="default", Orders={"shuffle"})))
+        P.append(dict(name="channels2", nv=2, w=6, consts=consts(m, Scope={"r.publish", "ingress"}, K=1, MinR=2, MaxR=2,
+                                                             ChForms=ALL_CHFORMS, PqSet={"bare", "quoted", "qph"}, ErrSet={"none", "dup_path"},
+                                                             Bases={"auto", "none"}, SpMode="default", Orders={"canon", "interleave"})))
+        P.append(dict(name="paths", nv=2, w=4, consts=consts(m, Scope={"r.auth_basic", "r.publish"}, K=2, MinR=1, MaxR=2, ChForms=PATH_CHFORMS,
                                                          PqSet=set(m.classes["pq"]), Bases={"auto", "none"}, SpMode="default")))
-        P.append(dict(name="layout", nv=3, w=8, consts=consts(m, Scope=tops | {"ingress.listen", "vars.item", "secrets.secret"}, K=3, MinR=1, MaxR=2,
+        P.append(dict(name="layout", nv=3, w=8, consts=consts(m, Scope=tops | {"ingress.listen", "vars.item", "secrets.secret"}, K=2, MinR=1, MaxR=2,
                                                           ChForms={("bare", "bare"), ("outbound", "single"), ("internal", "wrapper")},
                                                           Bases={"auto"}, Orders=orders, Cms=cms, SpMode="default")))
         k = 0
         for vc1 in (allvc, noblank):
             for base in ({"auto"}, {"none", "pull", "deliver"}):
                 for depth in (8, 16, 28):
-                    P.append(dict(name="sim%d" % k, nv=2, w=1, sim=(2500, depth),
+                    P.append(dict(name="sim%d" % k, nv=2, w=1, k=k, sim=(1500, depth),
                                   consts=consts(m, VC1=vc1, VC2=allvc2 & vc1 | {"bare"}, MinR=1, MaxR=3, ChForms=ALL_CHFORMS,
                                                 PqSet=set(m.classes["pq"]), Bases=base, Orders=orders, Cms=cms)))
                     k += 1
@@ -179,7 +185,7 @@ def run_gen(ctx, plan, seed):
     if sim:
         c["GenDepth"] = sim[1]
         c["K"] = sim[1]
-        extra = ["-simulate", "num=%d" % sim[0], "-depth", str(3 * sim[1] + 12), "-seed", str(seed * 1000 + len(plan["name"]) + sim[1])]
+        extra = ["-simulate", "num=%d" % sim[0], "-depth", str(3 * sim[1] + 12), "-seed", str(seed * 1000 + plan.get("k", 0))]
         workers = 1
     t0 = time.time()
     r = vf.mc_run(ctx, "c19-" + plan["name"], "ConfigLangGen", c, {}, invariants=INVS, spec="GenSpec", workers=workers,
